@@ -36,6 +36,24 @@ var c15Nets = []c15Net{
 	{"simnet", &chaincfg.SimNetParams, [4]byte{0x04, 0x20, 0xb9, 0x00}, [4]byte{0x04, 0x20, 0xbd, 0x3a}},
 }
 
+// A network the application registers itself (chaincfg.Register): the
+// library must serve it like the built-in ones.
+var c15Custom = func() *chaincfg.Params {
+	p := chaincfg.SimNetParams // copy
+	p.Name = "verifnet"
+	p.Net = 0x76657266
+	p.HDPrivateKeyID = [4]byte{0x04, 0x99, 0xaa, 0x01}
+	p.HDPublicKeyID = [4]byte{0x04, 0x99, 0xaa, 0x02}
+	p.CashAddressPrefix = "verif"
+	return &p
+}()
+
+func init() {
+	if err := chaincfg.Register(c15Custom); err == nil {
+		c15Nets = append(c15Nets, c15Net{"verifnet (registered by the harness)", c15Custom, c15Custom.HDPrivateKeyID, c15Custom.HDPublicKeyID})
+	}
+}
+
 func selfTestNets() error {
 	for _, n := range c15Nets {
 		if n.p.HDPrivateKeyID != n.priv || n.p.HDPublicKeyID != n.pub {
